@@ -35,6 +35,28 @@ def fresh_interp(ctx):
     return it
 
 
+def listing_order_independent(ctx):
+    """registry.get evaluated on virtual directories handed out in three different listing orders gives one and the same result
+    (dict registry of three conflicting files; list registry of three files).  Used by C13 to decide whether an un-`sorted(...)`
+    directory listing is actually consumed in file-system order."""
+    gf = ctx.program.module("schwifty.registry").defs.get("get")
+    if not isinstance(gf, Func):
+        raise AnalysisError("anchor vanished: schwifty.registry.get")
+    dirs = [("iban", [("a_b.json", {"AA": {"x": 1}}), ("aZ.json", {"AA": {"x": 2}}), ("ab.json", {"AA": {"x": 3}, "BB": 1})]),
+            ("bank", [("generated_zz.json", [{"k": 1}]), ("manual_aa.json", [{"k": 2}]), ("Manual_b.json", [{"k": 3}])])]
+    for name, files in dirs:
+        results = []
+        for order in (lambda xs: sorted(xs), lambda xs: sorted(xs, reverse=True), lambda xs: sorted(xs)[1:] + sorted(xs)[:1]):
+            it = fresh_interp(ctx)
+            it.vfs = {("path", "schwifty", f"{name}_registry"): copy.deepcopy(files)}
+            it.glob_order = order
+            o = _run(it, lambda: it.call_func(gf, [name], {}, None), "registry.get on a virtual directory")
+            results.append((o.kind, o.value if o.kind == "return" else o.value.name))
+        if any(r != results[0] for r in results[1:]):
+            return False
+    return True
+
+
 def run(ctx, report):
     prog = ctx.program
     regmod = prog.module("schwifty.registry")
